@@ -85,6 +85,18 @@ func runC17(c *Ctx) {
 			s * math.Tanh(pert.X20), s * math.Tanh(pert.X21), w.X22 + s*math.Tanh(pert.X22), c.fl(),
 			0, 0, 0, 1}
 		c.Emit("c17.holds.mul_inv", mF(w)+" "+mF(w.Inverse()), "true")
+		// the same at other SCALES (unit conversions mm↔m…): a well-conditioned matrix whose determinant is tiny or huge
+		{
+			g := []float64{1e-4, 1e-3, 5e-3, 1e-2, 0.1, 10, 100, 1e3}[c.Rng.Intn(8)]
+			ws := mat.Matrix4x4{
+				w.X00 * g, w.X01 * g, w.X02 * g, w.X03,
+				w.X10 * g, w.X11 * g, w.X12 * g, w.X13,
+				w.X20 * g, w.X21 * g, w.X22 * g, w.X23,
+				0, 0, 0, 1}
+			c.Emit("c17.mat.inv", mF(ws), mF(ws.Inverse()))
+			c.Emit("c17.holds.mul_inv", mF(ws)+" "+mF(ws.Inverse()), "true")
+			c.Note("mat.scaled_inverse")
+		}
 
 		q1, q2, v := c.quat(), c.quat(), c.v3()
 		c.Emit("c17.quat.rotate", qF(q1)+" "+vF(v), vF(q1.Rotate(v)))
@@ -205,6 +217,11 @@ func runC17(c *Ctx) {
 		// mesh level
 		{
 			n := 1 + c.Rng.Intn(6)
+			if k%100 == 3 {
+				// sizes around internal batch sizes (a batched / parallel rewrite of a mesh-level loop shows only there)
+				n = []int{255, 256, 257, 1023, 1024, 1025, 4095, 4096, 4097, 8193}[c.Rng.Intn(10)]
+				c.Note("mesh.large")
+			}
 			pts := make([]vector3.Float64, n)
 			args := ""
 			for i := range pts {
